@@ -282,9 +282,9 @@ class Evaluator(object):
             return form.apply("self." + meth, args, kwargs)
         if rname == "len" and len(args) == 1 and isinstance(args[0], list):
             return Rat.const(len(args[0]))
-        if rname == "list" and not args and not kwargs:
+        if rname in ("list", "set") and not args and not kwargs:
             return []
-        if isinstance(node.func, ast.Attribute) and node.func.attr == "append" and len(args) == 1:
+        if isinstance(node.func, ast.Attribute) and node.func.attr in ("append", "add") and len(args) == 1:
             tgt = dotted(node.func.value)
             if tgt is not None and isinstance(path.env.get(tgt), list) and isinstance(args[0], Rat):
                 path.env[tgt] = list(path.env[tgt]) + [args[0]]
@@ -453,6 +453,11 @@ class Evaluator(object):
             return [path]
         if isinstance(st, ast.Assign):
             v = self.ev(st.value, path)
+            # allocation sites of dictionaries get the identity of the variable they are bound to
+            if isinstance(st.value, ast.Call) and dotted(st.value.func) == "dict" and not st.value.args and not st.value.keywords \
+                    or isinstance(st.value, ast.Dict) and not st.value.keys:
+                tname = dotted(st.targets[0]) or norm(st.targets[0])
+                v = form.apply("new:dict", [form.apply("str:" + repr(tname), [])])
             for t in st.targets:
                 self.assign(t, v, path, st)
             return [path]
